@@ -98,11 +98,11 @@ def pick_positions(rng, edges, total, limit):
         for d in (-1, 0, 1):
             if 0 <= x + d < total:
                 s.add(x + d)
-    s |= {p for p in range(0, min(total, 12))}
-    s |= {p for p in range(max(0, total - 12), total)}
+    s |= {p for p in range(0, min(total, 64))}
+    s |= {p for p in range(max(0, total - 64), total)}
     s = sorted(s)
     if len(s) > limit:
-        keep = set(s[:40]) | set(s[-40:])
+        keep = set(s[:70]) | set(s[-70:])
         keep |= set(rng.sample(s, limit - min(limit, len(keep))) if limit > len(keep) else [])
         s = sorted(keep)
     return s
@@ -248,14 +248,15 @@ def rle(pairs):
 
 
 def unrle(s):
+    """inverse of rle; outcomes may themselves contain ';' (the text form of a parsed transaction)"""
+    import re
     out = []
-    for g in s.split(';'):
-        if not g:
-            continue
-        head, o = g.split('=', 1)
-        st, c = head.split('x')
-        out.append((int(st), int(c), o))
+    for g in re.split(r';(?=\d+x\d+=)', s):
+        m = re.match(r'(\d+)x(\d+)=(.*)$', g, re.S)
+        if m:
+            out.append((int(m.group(1)), int(m.group(2)), m.group(3)))
     return out
+
 
 
 # ---- objects with history: every ordered pair of observers on ONE object ------------------------------------
@@ -782,6 +783,28 @@ class C01(Prop):
         return C.CBlock(h['ver'], h['prev'], h['merkle'], h['time'], h['bits'], h['nonce'], vtx)
 
     def de(self, kind, buf, pad):
+        r = self.de_bytes(kind, buf, pad)
+        # second entry point: stream_deserialize on a stream holding the same bytes must tell the same story
+        import io
+        cls = self.cls[kind]
+        f = io.BytesIO(buf)
+        try:
+            obj = cls.stream_deserialize(f)
+            s = 'ok'
+            rest = f.read()
+        except Exception as e:  # noqa: BLE001
+            s, rest = 'err:' + exc_family(e), b''
+        if r.startswith('err:'):
+            return r if s == r else 'entry-points-differ:deserialize=%s:stream=%s' % (r, s)
+        if s != 'ok':
+            return 'entry-points-differ:deserialize=%s:stream=%s' % (r.split(':')[0], s)
+        if r.startswith('extra:') and rest.hex() != r.split(':')[-2]:
+            return 'entry-points-differ:surplus'
+        if r.startswith('ok:') and not pad and rest:
+            return 'entry-points-differ:surplus'
+        return r
+
+    def de_bytes(self, kind, buf, pad):
         cls, show, S = self.cls[kind], self.show[kind], self.S
         try:
             obj = cls.deserialize(buf, allow_padding=pad)
@@ -871,6 +894,8 @@ class C01(Prop):
             mo = self.ask([self.model_line(c)])[0]
             exp_i = [(s + i, o) for s, n, o in unrle(io) for i in range(n)]
             exp_m = [(s + i, o) for s, n, o in unrle(mo) for i in range(n)]
+            if len(exp_i) != len(exp_m):
+                return
             if a[1] != '*':
                 pos = [int(x) for x in a[1].split(',') if x]
                 exp_i = list(zip(pos, [o for _, o in exp_i]))
